@@ -2,6 +2,7 @@
 from __future__ import annotations
 
 import ast
+import os
 
 from sa.cfg import cfg_of
 from sa.effects import classify, open_mode
@@ -134,7 +135,41 @@ def run(report, p):
                 elif t[0] in ("param", "attr"):
                     plain_final.append(o)
                 else:
-                    raise AnalysisError(f"{f.loc(call)}: the name of the file opened for writing is built by `{show(t)[:100]}`, a form this checker does not model")
+                    # a helper that derives the temporary name from the final name: evaluate it (constants only, nothing of the repository runs) for the
+                    # final names of the two writers - a manifest name and the chain file's name
+                    helper_q = o[1] if o[0] == "call" and o[1] in p.funcs else None
+                    judged = False
+                    if helper_q is not None and len(p.funcs[helper_q].params) == 1:
+                        from sa.absint import Evaluator as _Ev, UNKNOWN as _UNK
+
+                        hf_ = p.funcs[helper_q]
+
+                        def _atom(e, env, hf_=hf_):
+                            if isinstance(e, ast.Name) and e.id not in env:
+                                v = p.fold(e, hf_)
+                                if isinstance(v, (str, int)):
+                                    from sa.absint import Val as _Val
+
+                                    return _Val(v)
+                            return None
+
+                        samples = {"manifest": f"/vol/reel/ascmhl/0001_reel_2020-01-16_091500Z{ext}", "chain file": f"/vol/reel/ascmhl/{chain_name}"}
+                        which = "manifest" if f is writers(p)[0] else ("chain file" if f is writers(p)[1] else None)
+                        for label, final_name in samples.items():
+                            if which is not None and label != which:
+                                continue
+                            try:
+                                outs = _Ev(_atom, helper_q, value_boolops=True).run(hf_.node.body, {hf_.params[0]: final_name})
+                            except AnalysisError:
+                                outs = []
+                            vals = [oc[1] for _, oc in outs if oc is not None and oc[0] == "return"]
+                            if len(vals) == 1 and isinstance(vals[0], str):
+                                judged = True
+                                tmp_name = vals[0]
+                                r1.check(tmp_name != final_name, f, call, f"the temporary name that {hf_.name}() derives for the {label} `{os.path.basename(final_name)}` is the final name itself (`{os.path.basename(tmp_name)}`): the writer opens the LIVE {label} truncating and rewrites it in place, the closing os.replace renames the file onto itself - a kill (or an exception) while writing leaves an empty or half-written {label} and every later command aborts on it", construct=f"{hf_.name}: temporary name equals the final name ({label})")
+                                r1.check(not tmp_name.endswith(ext) or tmp_name == final_name, f, call, f"the temporary name that {hf_.name}() derives for the {label} ends with the manifest extension (`{os.path.basename(tmp_name)}`): the loader parses the half-written temporary of a killed run", construct=f"{hf_.name}: temporary keeps the manifest extension ({label})")
+                                r1.check(os.path.dirname(tmp_name) == os.path.dirname(final_name), f, call, f"the temporary `{tmp_name}` does not live in the folder of `{final_name}`", construct=f"{hf_.name}: temporary in another folder ({label})")
+                    raise AnalysisError(f"{f.loc(call)}: the name of the file opened for writing is built by `{show(t)[:100]}`, a form this checker does not model" + (" (the helper was evaluated on sample names; the remaining protocol checks need the modelled form)" if judged else ""))
             if plain_final:
                 r1.check(False, f, call, "a durable history file is opened for writing under its final name and written incrementally: a crash leaves a truncated / half-written file that the next load aborts on", witness="; ".join(show(o)[:160] for o in origs))
                 continue
